@@ -351,6 +351,8 @@ def run(prop, tier, replay=None):
                                "what": "model layout differs between twins (contradicts theorem generate_twin)"},
                               no_input=True)
         check_codec_twins(rep, rng, tier)
+        from . import canc
+        canc.run_core(rep, "C15", tier, rng)
     if prop == "C14":
         check_c_command(rep, rng, tier, descs, cases, mres)
     # ---- C05: frames packed per the layout decode through the DBC (cantools as second reader)
